@@ -158,6 +158,7 @@ package service
 //@   mode wrap
 //@   props C12 C16 C18
 //@   recovers
+//@   closure-calls-first 1 (*PushPullHandler).sendNotification
 //@   requires handlerWF(its) && its.lock != nil
 //@   requires[reply-prepared] its.resPushPullPack != nil && its.retCh != nil
 //@   requires[locked-flag-is-exact] its.locked == sel(G.held, its.lock)
@@ -201,7 +202,7 @@ package service
 // processSubscribeOrCreate: the refusal rows are taken from the property text (C13).
 //@ func (*PushPullHandler).processSubscribeOrCreate
 //@   mode wrap
-//@   props C13 C16 C05
+//@   props C13 C16 C05 C08
 //@   requires handlerWF(its) && its.resPushPullPack != nil && code != caseError
 //@   requires[sep] (its.datatypeDoc != nil ==> mongodb.docSep(its.datatypeDoc, its.gotPushPullPack.CheckPoint)) && (its.gotPushPullPack.CheckPoint != nil ==> allocated(its.gotPushPullPack.CheckPoint))
 //@   requires[log-inv] its.datatypeDoc != nil ? logInv(its) : G.stored == 0
@@ -210,6 +211,7 @@ package service
 //@   requires[subscribed-fact] (code == caseAllMatchedSubscribed ==> its.datatypeDoc.GetClientInDatatypeDoc(its.CUID, its.isReadOnly) != nil) && (code == caseAllMatchedNotSubscribed ==> its.datatypeDoc.GetClientInDatatypeDoc(its.CUID, its.isReadOnly) == nil)
 //@   ensures[type-mismatch-refused]      code == caseMatchKeyNotType ==> result != nil
 //@   ensures[create-existing-refused]    old(optCreate(its)) && !old(optSubscribe(its)) && (code == caseAllMatchedNotSubscribed || code == caseAllMatchedNotVisible) ==> result != nil
+//@   ensures[a-repeated-create-by-its-author-is-accepted] code == caseAllMatchedSubscribed ==> result == nil && its.datatypeDoc == old(its.datatypeDoc)
 //@   ensures[duid-of-other-key-refused]  (old(optCreate(its)) || old(optSubscribe(its))) && code == caseUsedDUID ==> result != nil
 //@   ensures[subscribe-missing-refused]  old(optSubscribe(its)) && !old(optCreate(its)) && code == caseMatchNothing ==> result != nil
 //@   ensures[unknown-datatype-refused]   !old(optSubscribe(its)) && !old(optCreate(its)) && code == caseMatchNothing ==> result != nil
